@@ -3,8 +3,8 @@
 Theorems: lean/PersimVerif/Props/C15.lean (model lean/PersimVerif/Model/Sliced.lean at the reals / an ordered field).
 Tie: `persim.sliced_wasserstein.sliced_wasserstein` vs the same model executed at Float (driver op `sw`) with the
      SAME float32 direction vectors the code builds (computed here exactly as the code does and sent as rationals).
-[T]: the laws of the statement evaluated directly on the real code (rounding, float32 directions and the clauses
-     that are not decided by a theorem: `<= 2*W1`; the triangle inequality is proved for the model and tested on the code).
+[T]: the laws of the statement evaluated directly on the real code (rounding and the float32 direction / diag_theta
+     vectors are outside every theorem): symmetry, reorderings, diagonal points, translation, scaling, triangle, `<= 2*W1`.
 """
 import itertools
 import math
@@ -387,18 +387,20 @@ def replay(ctx, rep):
 
 
 MANIFEST = {
-    "text": "Proof, partial: Lean theorems about the model of sliced_wasserstein over the reals, for diagrams of every size, "
-            "coordinates of either sign and every list of M >= 1 directions: symmetry, invariance under reordering (zero between "
-            "reorderings), invariance under translation along the diagonal for either sign (what the old |x|/sqrt2 projection broke; "
-            "old_proj_counterexample), linear scaling, diagonal points project to themselves and are ignored, the sorted L1 cost is "
-            "the minimum over all bijections (1-D optimal transport), and the triangle inequality of the augmented construction. "
-            "NOT decided by proof: the bound <= 2*W1 (tested against persim's wasserstein on every generated pair). The model is tied "
-            "to the code on every run by executing it at Float with the code's own float32 direction vectors (1e-6 of the coordinate "
-            "scale), against an independent definition (exhaustive over bijections for <= 6 points), and all laws are evaluated on "
-            "the real code as tests.",
+    "text": "Proof: Lean theorems about the model of sliced_wasserstein over the reals, for diagrams of every size, coordinates of "
+            "either sign and every list of M >= 1 directions: the value is the average over the directions of the sorted L1 cost of "
+            "the two augmented projected lists, and that cost is the minimum over all bijections (1-D optimal transport); symmetry; "
+            "invariance under reordering (zero between reorderings); invariance under translation along the diagonal for either sign "
+            "(what the old |x|/sqrt2 projection broke: old_proj_counterexample, old_sw_counterexample); linear scaling; diagonal "
+            "points project to themselves and are ignored wherever they stand. Beyond the design's plan the remaining clauses are "
+            "proved too: the triangle inequality of the augmented construction, and for unit directions sw <= 2*W1 against every "
+            "partial matching (Euclidean ground metric). The model is tied to the code on every run by executing it at Float with the "
+            "code's own float32 direction vectors (1e-6 of the coordinate scale), against an independent definition (exhaustive over "
+            "bijections for <= 6 points), and all laws are evaluated on the real code as tests.",
     "note": "Trusted: Lean kernel + Mathlib, axioms propext/Classical.choice/Quot.sound; the correspondence harness; numpy cos/sin/"
-            "float32 casts (directions are computed by the harness with the code's expressions and passed in); np.dot, sorted, "
-            "scipy cityblock as exact dot product / sort / L1 up to rounding. Theorems are exact-arithmetic with the exact "
-            "projection onto the diagonal; the code's float32 diag_theta makes it inexact by ~4e-8, covered only by the [T] streams.",
+            "float32 casts (directions are computed by the harness with the code's expressions and passed in; the theorems hold for "
+            "every direction list, the W1 bound for unit directions); np.dot, sorted, scipy cityblock as exact dot product / sort / L1 "
+            "up to rounding. Theorems are exact-arithmetic with the exact projection onto the diagonal; the code's float32 diag_theta "
+            "makes it inexact by ~4e-8 relative, covered only by the [T] streams (tolerance 1e-6 of the coordinate scale).",
     "technique": "Lean 4 theorems over a hand-written model + differential correspondence with the real code + metamorphic tests",
 }
